@@ -85,7 +85,10 @@ var tmpls = map[string]tmpl{
 	// a second context of the poor consumer: together with "poor" it costs more than V holds, so that when both
 	// are due in one block the order in which the end-blocker takes them decides which one is served
 	"poor2": {name: "poor2", consumer: "V", providers: []string{"P3"}, timeout: 4, repeated: true, freq: 5, total: -1},
-	"mod":   {name: "mod", consumer: "U", providers: []string{"P1", "P2"}, timeout: 2, repeated: true, freq: 2, total: 2, module: true, threshold: 2},
+	// a repeated context whose total is a single batch: everything that happens after that batch happens at the
+	// boundary "below its total" (pause / start around the only batch's expiry)
+	"rep1": {name: "rep1", consumer: "U", providers: []string{"P1"}, timeout: 2, repeated: true, freq: 2, total: 1},
+	"mod":  {name: "mod", consumer: "U", providers: []string{"P1", "P2"}, timeout: 2, repeated: true, freq: 2, total: 2, module: true, threshold: 2},
 }
 
 type mctx struct {
@@ -878,6 +881,10 @@ func (d *Driver) oneBlock(e *mc.Env, s *mc.State, dt time.Duration) []mc.Finding
 				fs = append(fs, mc.F("C08/batch-off-schedule/missed", "context %s (freq %d, total %d, last batch at %d, %d batches) issued no batch in end-block %d and is still running", c.Tmpl, t.freq, t.total, c.LastBatch, c.Batches, h))
 			}
 		}
+		if t.repeated && t.total >= 0 && !c.Modified && postOK && newBatches > 0 && int64(poc.BatchCounter) > t.total {
+			// "issues batch n+1 ... while running and below its total": whatever pauses and starts came before
+			fs = append(fs, mc.F("C08/batch-beyond-total", "context %s (total %d) issued batch %d in end-block %d", c.Tmpl, t.total, poc.BatchCounter, h))
+		}
 		if !t.repeated && c.Batches >= 1 && newBatches > 0 {
 			fs = append(fs, mc.F("C08/one-shot-second-batch", "one-shot context %s issued batch %d", c.Tmpl, poc.BatchCounter))
 		}
@@ -976,6 +983,7 @@ func Parts(mode string) func() []mc.Part {
 				mc.ExplorePart("service-control", New(Variant{Name: "service-control", Mode: mode, Tmpl: []string{"rep", "one"}, ControlOps: true}), 7, 9, true, rule),
 				mc.ExplorePart("service-schedule", New(Variant{Name: "service-schedule", Mode: mode, Tmpl: []string{"rep", "poor", "mod"}}), 8, 11, true, rule),
 				mc.ExplorePart("service-schedule-at-height-252", New(Variant{Name: "service-schedule-at-height-252", Mode: mode, Tmpl: []string{"rep", "one"}, InitialHeight: 252}), 8, 10, true, rule),
+				mc.ExplorePart("service-total-boundary", New(Variant{Name: "service-total-boundary", Mode: mode, Tmpl: []string{"rep1"}, ControlOps: true}), 7, 10, true, rule),
 			}
 		}
 		return []mc.Part{
@@ -986,6 +994,9 @@ func Parts(mode string) func() []mc.Part {
 			mc.ExplorePart("double-expiry", New(Variant{Name: "double-expiry", Mode: mode, Tmpl: []string{"one", "poor"}}), 6, 8, true, rule),
 			// heights are the keys of the batch queues: batches and expirations of this chain fall on 254..260
 			mc.ExplorePart("schedule-at-height-252", New(Variant{Name: "schedule-at-height-252", Mode: mode, Tmpl: []string{"rep", "one"}, InitialHeight: 252}), 8, 10, true, rule),
+			// a repeated context of one batch in total, with the consumer's control operations: pauses and starts around
+			// the expiry of the last batch ("while running and below its total")
+			mc.ExplorePart("total-boundary", New(Variant{Name: "total-boundary", Mode: mode, Tmpl: []string{"rep1"}, ControlOps: true}), 7, 10, true, rule),
 		}
 	}
 }
